@@ -1,67 +1,92 @@
 import Cellml.Units.Define
 
-/-! The offset test of `_make_pint_unit_definition` (`not offset.strip().isnumeric() or int(offset) != 0`) against the
-    number the attribute denotes: whatever passes the test denotes zero, so every non-zero offset is rejected.
-    (The converse fails: `0.0` denotes zero and is rejected — known finding.) -/
+/-! The offset test of `_make_pint_unit_definition` (`float(offset) != 0`) against the number the attribute denotes
+    (`Decimal.parse`, exact): the test refuses EXACTLY the offsets whose binary64 value is not zero.
+
+    * `offsetRejected_decimal`: for decimal text the test is `!roundsToZero q`, `q` the exact value;
+    * `zero_offset_accepted`: every spelling of zero passes (`0`, `0.0`, `+0`, `-0`, `0.00`, `0e0`, …) - before the
+      repair (`strip().isnumeric()` / `int`) only digit strings did (`OldTest.zero_point_rejected`);
+    * `nonzero_offset_rejected`: every offset whose nearest double is not zero is refused; `roundsToZero_false_of_ne`:
+      that is every non-zero number whose denominator is below `2^1075` (e.g. any non-zero decimal with at most 323
+      digits after the point). A non-zero text below `2^-1075` in magnitude (`1e-400`) IS the float zero and passes,
+      as in python (`tiny_offset_is_float_zero`). -/
 
 namespace Units
 
-theorem span_loop_all {p : Char → Bool} : ∀ (l acc : List Char), (∀ x ∈ l, p x = true) →
-    List.span.loop p l acc = (acc.reverse ++ l, []) := by
-  intro l
-  induction l with
-  | nil => intro acc _; simp [List.span.loop]
-  | cons a l ih =>
-      intro acc h
-      have ha : p a = true := h a List.mem_cons_self
-      simp only [List.span.loop, ha]
-      rw [ih (a :: acc) (fun x hx => h x (List.mem_cons_of_mem _ hx))]
-      simp
+theorem floatText_of_parse {o : String} {q : Rat} (h : Decimal.parse o = some q) : floatText o = some (.dec q) := by
+  unfold floatText; rw [h]
 
-theorem span_all {p : Char → Bool} (l : List Char) (h : ∀ x ∈ l, p x = true) : l.span p = (l, []) := by
-  unfold List.span
-  rw [span_loop_all l [] h]; rfl
+/-- decimal text: the test looks at the exact value only -/
+theorem offsetRejected_decimal {o : String} {q : Rat} (h : Decimal.parse o = some q) :
+    offsetRejected o = !roundsToZero q := by
+  unfold offsetRejected; rw [floatText_of_parse h]
 
-theorem digit_ne {c : Char} (h : c.isDigit = true) : c ≠ '-' ∧ c ≠ '+' ∧ c ≠ 'e' ∧ c ≠ 'E' ∧ c ≠ '.' := by
-  refine ⟨?_, ?_, ?_, ?_, ?_⟩ <;> (intro heq; rw [heq] at h; revert h; decide)
+theorem roundsToZero_zero : roundsToZero 0 = true := by decide +kernel
 
-/-- an offset that passes the test of `_make_pint_unit_definition` is zero: so every non-zero offset is rejected -/
-theorem parse_of_offset_accepted (o : String) (h : offsetRejected o = false) : Decimal.parse o = some 0 := by
+/-- an offset that denotes zero passes the test, however it is spelled -/
+theorem zero_offset_accepted (o : String) (h : Decimal.parse o = some 0) : offsetRejected o = false := by
+  rw [offsetRejected_decimal h, roundsToZero_zero]; rfl
+
+/-- an offset whose binary64 value is not zero is refused -/
+theorem nonzero_offset_rejected (o : String) (q : Rat) (hq : Decimal.parse o = some q) (hnz : roundsToZero q = false) :
+    offsetRejected o = true := by
+  rw [offsetRejected_decimal hq, hnz]; rfl
+
+/-- a non-zero rational with a denominator below `2^1075` does not round to the float zero -/
+theorem roundsToZero_false_of_ne (q : Rat) (hne : q ≠ 0) (hden : q.den < 2 ^ 1075) : roundsToZero q = false := by
+  unfold roundsToZero
+  have hnum : q.num ≠ 0 := fun h => hne (Rat.num_eq_zero.mp h)
+  have h1 : 1 ≤ q.num.natAbs := Nat.pos_of_ne_zero (by simpa using hnum)
+  have h2 : 2 ^ 1075 ≤ q.num.natAbs * 2 ^ 1075 := Nat.le_mul_of_pos_left _ h1
+  exact decide_eq_false (by omega)
+
+/-- what passes the test is a number that the floats cannot tell from zero: a decimal literal (possibly with PEP 515
+    underscores) of magnitude at most `2^-1075`; never `nan`, `inf`, or text that is not a number -/
+theorem parse_of_offset_accepted (o : String) (h : offsetRejected o = false) :
+    ∃ q, floatText o = some (.dec q) ∧ roundsToZero q = true := by
   unfold offsetRejected at h
-  simp only at h
-  generalize ht : Decimal.trimList o.toList = t at h
   split at h
   · cases h
-  · rename_i hcond
-    simp only [Bool.or_eq_true, Bool.not_eq_true', not_or, Bool.not_eq_true, Bool.not_eq_false] at hcond
-    obtain ⟨hne, hall⟩ := hcond
-    split at h
-    · rename_i n hn
-      have hn0 : n = 0 := by simpa using h
-      subst hn0
-      have halld : ∀ x ∈ t, x.isDigit = true := List.all_eq_true.mp hall
-      cases t with
-      | nil => simp at hne
-      | cons c r =>
-          have hc := digit_ne (halld c List.mem_cons_self)
-          have hspan1 : (c :: r).span (fun c => c != 'e' && c != 'E') = (c :: r, []) := by
-            apply span_all
-            intro x hx
-            have := digit_ne (halld x hx)
-            simp [this.2.2.1, this.2.2.2.1]
-          have hspan2 : (c :: r).span (fun x => x != '.') = (c :: r, []) := by
-            apply span_all
-            intro x hx
-            have := digit_ne (halld x hx)
-            simp [this.2.2.2.2]
-          unfold Decimal.parse
-          simp only [ht]
-          simp [hc.1, hc.2.1, hspan1, hspan2, hn, hall, Decimal.pow10Rat]
-    · cases h
+  · cases h
+  · cases h
+  · rename_i q hq
+    exact ⟨q, hq, by simpa using h⟩
 
-theorem nonzero_offset_rejected (o : String) (q : Rat) (hq : Decimal.parse o = some q) (hne : q ≠ 0) :
-    offsetRejected o = true := by
-  cases h : offsetRejected o
-  · rw [parse_of_offset_accepted o h] at hq; simp only [Option.some.injEq] at hq; exact absurd hq.symm hne
-  · rfl
+/-- decimal text that passes denotes a number of magnitude at most `2^-1075`; with a denominator below `2^1075`: zero -/
+theorem zero_of_offset_accepted (o : String) (q : Rat) (hq : Decimal.parse o = some q) (hden : q.den < 2 ^ 1075)
+    (h : offsetRejected o = false) : q = 0 := by
+  apply Classical.byContradiction
+  intro hne
+  rw [nonzero_offset_rejected o q hq (roundsToZero_false_of_ne q hne hden)] at h
+  cases h
+
+/-- python: `float('1e-400') == 0.0`; `float('2.4703282292062328e-324') == 5e-324` (just above `2^-1075`) -/
+theorem tiny_offset_is_float_zero :
+    offsetRejected "1e-400" = false ∧ offsetRejected "2.4703282292062327e-324" = false ∧
+    offsetRejected "2.4703282292062328e-324" = true := by decide +kernel
+
+/-- what `float()` accepts beyond plain decimal literals: never a zero unless the digits are -/
+theorem float_special_forms :
+    offsetRejected "inf" = true ∧ offsetRejected "-Infinity" = true ∧ offsetRejected "nan" = true ∧
+    offsetRejected "1_0" = true ∧ offsetRejected "0_0" = false ∧ offsetRejected "0__0" = true ∧
+    offsetRejected "_0" = true ∧ offsetRejected "0_" = true ∧ offsetRejected "0x0" = true ∧
+    offsetRejected "" = true ∧ offsetRejected "zero" = true := by decide +kernel
+
+/-! ### the test before the repair (`not offset.strip().isnumeric() or int(offset) != 0`), kept as a witness -/
+namespace OldTest
+
+def offsetRejected (o : String) : Bool :=
+  let t := Decimal.trimList o.toList
+  if t.isEmpty || !(t.all Char.isDigit) then true
+  else match Decimal.digitsToNat t with
+    | some n => n != 0
+    | none => true
+
+/-- known finding `valid-rejected:zero-offset-spelling` (now fixed): `0.0` denotes zero, the old test refused it, the
+    repaired test accepts it; both refuse `0.5` (the seeded slip `int(float(x))` would accept it) -/
+theorem zero_point_rejected :
+    Decimal.parse "0.0" = some 0 ∧ OldTest.offsetRejected "0.0" = true ∧ Units.offsetRejected "0.0" = false ∧
+    OldTest.offsetRejected "0.5" = true ∧ Units.offsetRejected "0.5" = true := by decide +kernel
+
+end OldTest
 end Units
